@@ -1,7 +1,13 @@
 import Anysystem.Proofs.SearchThms
 import Anysystem.Model.Strategy
+import Anysystem.Proofs.StagedThms
 /-!
-# C16 — Staged exploration composes (first part: what one stage returns)
+# C16 — Staged exploration composes
+
+What one stage returns (below) and, in `Anysystem/Proofs/StagedThms.lean`: `runFromStates_restores` (the checker is
+rolled back on every exit path, D6), `runImpl_is_search`, `search_trace_prefix` (every state evaluated in a stage
+carries the start state's trace followed by `McStarted` as a prefix), `runFromStates_disabled_concat` (without a cache
+the stage evaluates, start state by start state, exactly what a search from that state after the callback evaluates).
 -/
 namespace Anysystem
 
